@@ -353,6 +353,17 @@ def build(cfg, world=None, error_handler='reraise', stage_hook=None):
         entry = route
         prefix = ''
         apps = []
+        rich = None
+        if cfg.get('prebound'):
+            # the same Route / inner application is first bound into an unrelated application that defines every name of the
+            # alphabet as a resource: nothing of that binding may be visible in the configuration under test
+            taken = set(rt.get('url') or []) | set(n for lv in levels for n in prefix_names(lv))
+            rich = dict((n, Sent('leak:%s' % n)) for n in ('a', 'b', 'c', 'd', 'e') if n not in taken)
+            try:
+                Application([route], resources=rich)
+                b.prebound = 1
+            except Exception:
+                b.prebound = 0
         for i in range(len(levels) - 1, -1, -1):
             stage = i
             lv = levels[i]
@@ -399,6 +410,12 @@ def build(cfg, world=None, error_handler='reraise', stage_hook=None):
             apps.insert(0, app)
             if i > 0:
                 pfx = lv.get('prefix', '/s%d' % i)
+                if rich is not None:
+                    try:
+                        Application([SubApplication('/elsewhere', app)], resources=rich)
+                        b.prebound += 1
+                    except Exception:
+                        pass
                 entry = SubApplication(pfx, app)
                 prefix = pfx.rstrip('/') + prefix
     except Exception as e:
